@@ -1182,6 +1182,10 @@ sexp sexp_apply (sexp ctx, sexp proc, sexp args) {
 #endif
   case SEXP_OP_RAISE:
     sexp_context_top(ctx) = top;
+    /* an object raised in a nested VM without a handler came back */
+    /* wrapped: hand the object itself to the handler found here */
+    if (sexp_exceptionp(_ARG1) && sexp_exception_kind(_ARG1) == SEXP_UNCAUGHT)
+      _ARG1 = sexp_exception_irritants(_ARG1);
     if (sexp_trampolinep(_ARG1)) {
       tmp1 = sexp_trampoline_procedure(_ARG1);
       tmp2 = sexp_trampoline_args(_ARG1);
